@@ -28,16 +28,18 @@ CLAIM = dict(
 
 
 # ============================================================================ template helpers
-def to_rust(t):
+def to_rust(t, ren=None):
     """Turn a `format!`-style template holding Rust source into parseable Rust: `{{`/`}}` un-escaped, `{hole}` ->
     identifier `__h_hole__` (a hole alone on its line stands for items: `__h_hole__!();`), macro_rules
-    metavariables -> identifiers."""
+    metavariables -> identifiers.  `ren` renames holes to role names (see hole_roles) so that the checks do not
+    depend on the generator's local variable names."""
+    ren = ren or {}
     t = t.replace("$($path_to_types)*", "__ptt__").replace("$ty", "__ty__")
     t = t.replace("{{", "\x01").replace("}}", "\x02")
     lines = []
     for ln in t.split("\n"):
         m = re.fullmatch(r"\s*\{(\w+)\}\s*", ln)
-        lines.append(f"__h_{m.group(1)}__!();" if m else ln)
+        lines.append(f"__h_{ren.get(m.group(1), m.group(1))}__!();" if m else ln)
     t = "\n".join(lines)
     n = [0]
 
@@ -46,7 +48,7 @@ def to_rust(t):
         if name == "":
             name = f"pos{n[0]}"
             n[0] += 1
-        return f"__h_{name}__"
+        return f"__h_{ren.get(name, name)}__"
     t = re.sub(r"\{([^{}]*)\}", sub, t)
     return t.replace("\x01", "{").replace("\x02", "}")
 
@@ -55,8 +57,33 @@ def H(name):
     return f"__h_{name}__"
 
 
-def parse_template(text, what, fmt=True):
-    ast = facts.parse_snippet(to_rust(text) if fmt else text)
+# what a hole stands for, recognised by the call that produced the interpolated value
+ROLE_BY_PRODUCER = (("to_upper_camel_case", "camel"), ("path_to_resource", "resource"), ("runtime_path", "rt"),
+                    ("path_to_box", "box_path"), ("path_to_wasm_resource", "wasm_resource"))
+
+
+def hole_roles(fn, lit):
+    """hole name -> role for the format-like macro of generator function `fn` whose template is literal `lit`"""
+    ren = {}
+    for fm in synq.fmts(fn.body):
+        if fm.template_node is not lit:
+            continue
+        for kind, key, e, off in fm.hole_exprs():
+            if kind != "name":
+                continue
+            if e is None:
+                e = let_init(fn.body, key)
+            if e is None:
+                continue
+            for prod, role in ROLE_BY_PRODUCER:
+                if synq.contains_call_named(e, {prod}):
+                    ren[key] = role
+                    break
+    return ren
+
+
+def parse_template(text, what, fmt=True, ren=None):
+    ast = facts.parse_snippet(to_rust(text, ren) if fmt else text)
     if "error" in ast or ast.get("mode") not in ("file", "block"):
         raise AnchorMissing(f"{what}: embedded template does not parse as Rust ({str(ast.get('error'))[:120]})")
     return ast
@@ -490,6 +517,18 @@ def generator_rules(rep):
                     tl is not None and tl.get("k") == "ref" and not tl.get("mut") and render(tl["e"]) == tmp_name
             rep.ob("R7.2", "HandleLift borrow of an imported resource: `{tmp} = {name}::from_handle(op); &{tmp}` "
                    "(the callee only sees a reference to the call-scoped wrapper)", ok, det, f.loc(leaf))
+        # the wrapper type named by the three templates is the (de-aliased) resource's own Rust type
+        tys = []
+        for cls in ("own", "borrow-exported", "borrow-imported"):
+            leaf, fm, e = leaf_tmpl(cls)
+            if fm is None:
+                continue
+            for mm in re.finditer(r"\{(\w+)\}(?:Borrow)?::(?:from_handle|lift)\(", fm.template):
+                init = fm.named.get(mm.group(1)) or let_init(a.body, mm.group(1))
+                tys.append((cls, render(init) if init is not None else None,
+                            init is not None and bool(synq.method_calls(init, "type_path"))))
+        rep.ob("R7.2", "HandleLift: every wrapper is the resource's own type (`type_path(resource, ..)`)",
+               len(tys) == 3 and all(t[2] for t in tys) and len({t[1] for t in tys}) == 1, f"{tys}", f.loc(a.node))
     rep.guard("R7.2", "HandleLift", r2_lift)
 
     def r2_async_lift():
@@ -536,6 +575,17 @@ def generator_rules(rep):
             rep.ob("R7.2", f"handle_decls.{m['method']} in {where}", ok,
                    "the temporaries holding lifted borrows may only be declared by HandleLift and emitted by CallInterface",
                    fn.loc(m))
+        # no other access to the field (moved out, replaced, assigned, passed on ...)
+        recvs = [m["recv"] for fn, m in uses]
+        stray = []
+        for rel in (BG, IF, LIB):
+            for fn in synq.all_fns(rel):
+                for n in synq.walk(fn.body) if fn.body is not None else []:
+                    if n.get("k") == "field" and n["member"] == "handle_decls" and not any(n is r_ for r_ in recvs):
+                        stray.append(fn.loc(n))
+        rep.ob("R7.2", "the handle_decls field is accessed only as receiver of push / drain / is_empty", not stray,
+               f"other accesses at {stray}: the list of call-scoped temporaries is moved or replaced, declarations can "
+               "escape the call's block and outlive task.return", stray[0] if stray else f.loc())
         # whatever CallInterface left over is written at function scope by the caller of abi::call: that outlives
         # task.return, so nothing may be left over, i.e. every lift precedes the (single) CallInterface
         left = []
@@ -634,6 +684,33 @@ def generator_rules(rep):
                    ok and not mentions(ast, set(LEAKERS)),
                    f"template `{text.strip()}`: binding or forgetting the value keeps / leaks the handle", f.loc(node))
     rep.guard("R7.7", "DropHandle", r7)
+
+    # the shared generator asks for DropHandle only for what the guest still owns (never for a borrow)
+    def r7_core():
+        ABI = "crates/core/src/abi.rs"
+        n = 0
+        for nm, relift in (("deallocate", "lift"), ("deallocate_indirect", "read_from_memory")):
+            g = synq.find_fn(ABI, nm, self_ty="Generator")
+            rep.saw(f"{ABI}::{nm}")
+            sites = [a for m in synq.matches_in(g.body) for a in synq.arms(m)
+                     if synq.constructed(a.body, ["DropHandle"]) and not synq.matches_in(a.body)]
+            n += len(sites)
+            for a in sites:
+                kinds = []
+                for alt in a.alts:
+                    h = synq.pat_head(alt).split("::")[-1]
+                    if h == "Handle" and alt.get("k") == "p_tuple_struct" and alt["elems"]:
+                        h = "Handle(" + "|".join(synq.pat_head(x).split("::")[-1] for x in synq.pat_alts(alt["elems"][0])) + ")"
+                    kinds.append(h)
+                rep.ob("R7.7", f"{nm}: DropHandle is requested only for own<T>, future and stream (never for borrow<T>)",
+                       bool(kinds) and set(kinds) <= {"Handle(Own)", "Future", "Stream"}, f"arm covers {kinds}", g.loc(a.node))
+                rep.ob("R7.7", f"{nm}: DropHandle is requested only when handles are to be released (what.handles())",
+                       a.guard is not None and bool(synq.method_calls(a.guard, "handles")), render(a.guard), g.loc(a.node))
+                calls = [m_["method"] for m_ in synq.method_calls(a.body) if render(m_["recv"]) == "self"]
+                rep.ob("R7.7", f"{nm}: the handle is re-lifted ({relift}) exactly once and then dropped",
+                       calls == [relift, "emit"], f"{calls}", g.loc(a.node))
+        rep.floor("R7.7", "DropHandle emission sites in abi.rs", n, 2)
+    rep.guard("R7.7", "DropHandle requests", r7_core)
 
 
 def lifts_precede_call(rep):
@@ -774,13 +851,15 @@ def resource_template_rules(rep):
 
 def wrapper_rules(rep):
     """the generated per-resource wrapper `{camel}` (import and export flavour) and its WasmResource impl"""
-    lits = [s for s in synq.strings(synq.load(IF)) if re.search(r"pub fn take_handle\(&self\)", s["v"])]
+    tr = synq.find_fn(IF, "type_resource", self_ty="InterfaceGenerator")
+    rep.saw(f"{IF}::type_resource")
+    lits = [s for s in synq.strings(tr.body) if re.search(r"pub fn take_handle\(&self\)", s["v"])]
     rep.floor("R7.3", "per-resource wrapper templates (imported, exported)", len(lits), 2)
     rep.saw(file=IF)
     for lit in lits:
         flavour = "exported" if "fn dtor" in lit["v"] else "imported"
         where = f"{IF}:{synq.line(lit)}"
-        ast = parse_template(lit["v"], f"{flavour} wrapper")
+        ast = parse_template(lit["v"], f"{flavour} wrapper", ren=hole_roles(tr, lit))
         sts = [it for it in ast["items"] if it.get("k") == "struct_def" and it["name"] == H("camel")]
         if len(sts) != 1:
             raise AnchorMissing(f"{flavour} wrapper: struct {{camel}}")
@@ -811,13 +890,14 @@ def wrapper_rules(rep):
                len(cs) == 1 and len(p) == 1 and render(cs[0]["args"]) == p[0], render(g["body"]), where)
 
     # unsafe impl WasmResource for {camel} { unsafe fn drop(_handle) { {intrinsic} drop(_handle as i32) } }
-    tr = synq.find_fn(IF, "type_resource", self_ty="InterfaceGenerator")
-    rep.saw(f"{IF}::type_resource")
     lit = [s for s in synq.strings(tr.body) if re.search(r"unsafe fn drop\(", s["v"])]
     if len(lit) != 1:
         raise AnchorMissing(f"type_resource: {len(lit)} WasmResource::drop templates")
     where = f"{IF}:{synq.line(lit[0])}"
-    ast = parse_template(lit[0]["v"], "WasmResource impl")
+    ast = parse_template(lit[0]["v"], "WasmResource impl", ren=hole_roles(tr, lit[0]))
+    wi = [it for it in ast.get("items", []) if it.get("k") == "impl" and synq.base_name(it["self_ty"]) == H("camel")]
+    rep.ob("R7.3", "the [resource-drop] caller is `impl {wasm_resource} for {camel}` (the trait Resource<T>::drop dispatches to)",
+           len(wi) == 1 and wi[0].get("trait") == H("wasm_resource"), f"{[(i['self_ty'], i.get('trait')) for i in wi]}", where)
     fn = fns_of(ast, H("camel"))
     g = need(fn, "drop", "WasmResource impl")
     p = param_names(g)
@@ -845,7 +925,8 @@ def wrapper_rules(rep):
 def exported_rules(rep):
     lit = the_literal(IF, "pub fn into_inner", "exported resource template")
     where = f"{IF}:{synq.line(lit)}"
-    ast = parse_template(lit["v"], "exported resource template")
+    tr = synq.find_fn(IF, "type_resource", self_ty="InterfaceGenerator")
+    ast = parse_template(lit["v"], "exported resource template", ren=hole_roles(tr, lit))
     camel = H("camel")
     fn = fns_of(ast, camel, trait=None)
     bfn = fns_of(ast, camel + "Borrow", trait=None)
@@ -941,7 +1022,7 @@ def exported_rules(rep):
     if len(lit2) != 1:
         raise AnchorMissing(f"generate_exports: {len(lit2)} resource_into_raw_/resource_from_raw_ templates")
     where2 = f"{IF}:{synq.line(lit2[0])}"
-    a2 = parse_template(lit2[0]["v"], "Guest{camel} allocation defaults")
+    a2 = parse_template(lit2[0]["v"], "Guest{camel} allocation defaults", ren=hole_roles(ge, lit2[0]))
     f2 = fns_of(a2)
     g = need(f2, "resource_into_raw_", "Guest{camel}")
     p = param_names(g)
@@ -961,7 +1042,7 @@ def exported_rules(rep):
     if len(lit3) != 1:
         raise AnchorMissing(f"generate_exports: {len(lit3)} _resource_new templates")
     where3 = f"{IF}:{synq.line(lit3[0])}"
-    a3 = parse_template(lit3[0]["v"], "Guest{camel} built-ins")
+    a3 = parse_template(lit3[0]["v"], "Guest{camel} built-ins", ren=hole_roles(ge, lit3[0]))
     f3 = fns_of(a3)
     for meth, marker in (("_resource_new", "[resource-new]"), ("_resource_rep", "[resource-rep]")):
         g = need(f3, meth, "Guest{camel}")
@@ -981,7 +1062,7 @@ def exported_rules(rep):
     if len(lit4) != 1:
         raise AnchorMissing(f"generate_exports: {len(lit4)} [dtor] templates")
     where4 = f"{IF}:{synq.line(lit4[0])}"
-    a4 = parse_template(lit4[0]["v"], "[dtor] export")
+    a4 = parse_template(lit4[0]["v"], "[dtor] export", ren=hole_roles(ge, lit4[0]))
     dfn = [n["item"] for n in synq.walk(a4) if n.get("k") == "item_stmt" and n["item"].get("k") == "fn"]
     dfn += [it for it in a4.get("items", []) if it.get("k") == "fn"]
     dfn = [d for d in dfn if any("export_name" in a for a in d.get("attrs", []))]
@@ -997,77 +1078,106 @@ def exported_rules(rep):
 
 
 # ============================================================================ names (R7.6)
+MANGLERS = {"to_upper_camel_case", "to_snake_case", "to_rust_ident", "to_shouty_snake_case", "to_lowercase", "to_uppercase"}
+
+
+def single_hole(template, marker):
+    """`<marker>{hole}` -> hole name (the template must consist of the marker and one named hole)"""
+    m = re.fullmatch(re.escape(marker) + r"\{(\w+)\}", template or "")
+    return m.group(1) if m else None
+
+
+def module_hole_ok(scope, fm):
+    """`[export]{module}` whose hole is the world key of the interface"""
+    if fm is None:
+        return False, None
+    key = single_hole(fm.template, "[export]")
+    e = fm.named.get(key) if key else None
+    if key and e is None:
+        e = let_init(scope, key)
+    return bool(key) and e is not None and bool(synq.method_calls(e, "name_world_key")), fm.template
+
+
 def name_rules(rep, dtor_fn, where4, ge):
     from .C13 import dtor_name_obligations
     dtor_name_obligations(rep, "R7.6", "rust")
     # [dtor]: `{export_prefix}{module}#[dtor]{name}` with name = the WIT name iterated from resources_to_drop
-    attr = [a for a in dtor_fn.get("attrs", []) if "export_name" in a]
-    m = re.search(r'export_name\s*=\s*"([^"]*)"', attr[0]) if attr else None
-    rep.ob("R7.6", "[dtor] export name is `{export_prefix}{module}#[dtor]{name}`",
-           m is not None and m.group(1) == f"{H('export_prefix')}{H('module')}#[dtor]{H('name')}",
-           m.group(1) if m else "", where4)
-    loops = [n for n in synq.walk(ge.body) if n.get("k") == "for" and [s for s in synq.strings(n["body"]) if "[dtor]" in s["v"]]]
+    lit = [s_ for s_ in synq.strings(ge.body) if "[dtor]" in s_["v"]][0]
+    fm = [x for x in synq.fmts(ge.body) if x.template_node is lit]
+    m = re.search(r'export_name = \\?"((?:\{\w+\})*)#\[dtor\]\{(\w+)\}\\?"', lit["v"])
+    pre = re.findall(r"\{(\w+)\}", m.group(1)) if m else []
+
+    def hole_init(key):
+        e = fm[0].named.get(key) if fm else None
+        return e if e is not None else let_init(ge.body, key)
+    ok = m is not None and len(fm) == 1 and len(pre) == 2 and hole_init(pre[0]) is not None and \
+        ".export_prefix" in render(hole_init(pre[0])) and hole_init(pre[1]) is not None and \
+        bool(synq.method_calls(hole_init(pre[1]), "name_world_key"))
+    rep.ob("R7.6", "[dtor] export name is `{export_prefix}{interface}#[dtor]{resource}`", ok,
+           m.group(0) if m else "no export_name attribute of that shape", where4)
+    loops = [n for n in synq.walk(ge.body) if n.get("k") == "for" and any(x is lit for x in synq.walk(n["body"]))]
     ok = False
     det = ""
-    if len(loops) == 1 and loops[0]["pat"].get("k") == "p_ident":
-        var = loops[0]["pat"]["name"]
-        src = render(loops[0]["iter"])
+    if m is not None and len(loops) >= 1 and loops[-1]["pat"].get("k") == "p_ident":
+        var = loops[-1]["pat"]["name"]
+        src = render(loops[-1]["iter"])
         # the vector is filled with the key of `interfaces[id].types` (the WIT type name) for Resource kinds
         pushes = [mc for mc in synq.method_calls(ge.body, "push") if render(mc["recv"]) == src.lstrip("&")]
         det = f"for {var} in {src}; pushes {[render(x['args']) for x in pushes]}"
-        if var == "name" and len(pushes) == 1:
+        if var == m.group(2) and fm and m.group(2) not in fm[0].named and len(pushes) == 1:
             pushed = render(pushes[0]["args"])
             outer = [n for n in synq.walk(ge.body) if n.get("k") == "for" and
                      any(x is pushes[0] for x in synq.walk(n["body"]))]
             ok = bool(outer) and outer[-1]["pat"].get("k") == "p_tuple" and \
                 outer[-1]["pat"]["elems"][0].get("name") == pushed and ".types" in render(outer[-1]["iter"]) and \
-                not synq.contains_call_named(pushes[0]["args"][0], {"to_upper_camel_case", "to_snake_case", "to_rust_ident"})
-    rep.ob("R7.6", "[dtor]{name}: name iterates the interface's WIT resource names (unmangled)", ok, det, where4)
+                not synq.contains_call_named(pushes[0]["args"][0], MANGLERS)
+    rep.ob("R7.6", "[dtor]: the resource hole iterates the interface's WIT resource names (unmangled)", ok, det, where4)
     # [resource-drop]{name} in type_resource: name = the `name: &str` parameter; module = own import module / [export]module
     tr = synq.find_fn(IF, "type_resource", self_ty="InterfaceGenerator")
-    di = [c for c in synq.fn_calls(tr.body, "declare_import") if "[resource-drop]" in " ".join(s["v"] for s in synq.strings(c))]
+    di = [c for c in synq.fn_calls(tr.body, "declare_import") if "[resource-drop]" in " ".join(s_["v"] for s_ in synq.strings(c))]
     rep.floor("R7.6", "[resource-drop] import declarations", len(di), 1)
     for c in di:
-        fm = [x for x in synq.fmts(c["args"][1])]
-        ok = len(fm) == 1 and fm[0].template == "[resource-drop]{name}" and "name" not in fm[0].named and \
-            let_init(tr.body, "name") is None and "name" in tr.params and tr.params.index("name") == 2
+        f1 = synq.fmts(c["args"][1])
+        key = single_hole(f1[0].template, "[resource-drop]") if len(f1) == 1 else None
+        # the hole is the WIT name parameter of `type_resource(&mut self, id, name, docs)`, not a derived local
+        ok = key is not None and key not in f1[0].named and let_init(tr.body, key) is None and \
+            key in tr.params and tr.params.index(key) == 2
         rep.ob("R7.6", "[resource-drop] import is named `[resource-drop]{name}` with the WIT resource name", ok,
-               f"{fm[0].template if fm else render(c['args'][1])}", tr.loc(c))
+               f"{f1[0].template if f1 else render(c['args'][1])}", tr.loc(c))
         mod = strip(c["args"][0])
         init = let_init(tr.body, mod["path"]) if mod.get("k") == "path" else None
         ok = False
         det = ""
         if init is not None and init.get("k") == "if":
-            lv = if_leaves(init)
             vals = {}
-            for conds, leaf in lv:
-                key = tuple((render(cn), p) for cn, p in conds)
-                t = tail_expr(leaf)
-                vals[key] = t
+            for conds, leaf in if_leaves(init):
+                vals[tuple((render(cn), p_) for cn, p_ in conds)] = tail_expr(leaf)
             imp = vals.get((("self.in_import", True),))
             exp = vals.get((("self.in_import", False),))
-            efm = as_fmt(exp) if exp is not None else None
-            ok = imp is not None and render(imp).startswith("self.wasm_import_module") and efm is not None and \
-                efm.template == "[export]{module}"
-            det = f"import: {render(imp) if imp is not None else None}; export: {efm.template if efm else None}"
-        rep.ob("R7.6", "[resource-drop] module: the interface's own module for imports, `[export]{module}` for exports",
+            eok, etxt = module_hole_ok(tr.body, as_fmt(exp) if exp is not None else None)
+            # the export flavour's module local may be bound inside the else branch
+            if not eok and exp is not None and as_fmt(exp) is not None:
+                eok, etxt = module_hole_ok(init, as_fmt(exp))
+            ok = imp is not None and render(imp).startswith("self.wasm_import_module") and eok
+            det = f"import: {render(imp) if imp is not None else None}; export: {etxt}"
+        rep.ob("R7.6", "[resource-drop] module: the interface's own module for imports, `[export]{interface}` for exports",
                ok, det, tr.loc(c))
-    for marker, tmpl in (("[resource-new]", "[resource-new]{resource_name}"), ("[resource-rep]", "[resource-rep]{resource_name}")):
-        di = [c for c in synq.fn_calls(ge.body, "declare_import") if marker in " ".join(s["v"] for s in synq.strings(c))]
+    for marker in ("[resource-new]", "[resource-rep]"):
+        di = [c for c in synq.fn_calls(ge.body, "declare_import") if marker in " ".join(s_["v"] for s_ in synq.strings(c))]
         ok = False
         det = ""
         if len(di) == 1:
-            fm = synq.fmts(di[0]["args"][1])
-            init = let_init(ge.body, "resource_name")
+            f1 = synq.fmts(di[0]["args"][1])
+            key = single_hole(f1[0].template, marker) if len(f1) == 1 else None
+            init = (f1[0].named.get(key) or let_init(ge.body, key)) if key else None
             mod = strip(di[0]["args"][0])
             minit = let_init(ge.body, mod["path"]) if mod.get("k") == "path" else None
-            mfm = as_fmt(minit) if minit is not None else None
-            ok = len(fm) == 1 and fm[0].template == tmpl and init is not None and ".name" in render(init) and \
-                not synq.contains_call_named(init, {"to_upper_camel_case", "to_snake_case", "to_rust_ident"}) and \
-                mfm is not None and mfm.template == "[export]{module}"
-            det = f"{fm[0].template if fm else None}; resource_name = {render(init) if init is not None else None}; " \
-                  f"module {mfm.template if mfm else None}"
-        rep.ob("R7.6", f"{marker} import is `{tmpl}` of `[export]{{module}}` with the WIT resource name", ok, det, ge.loc())
+            mok, mtxt = module_hole_ok(ge.body, as_fmt(minit) if minit is not None else None)
+            ok = init is not None and ".name" in render(init) and "types[" in render(init) and \
+                not synq.contains_call_named(init, MANGLERS) and mok
+            det = f"{f1[0].template if f1 else None}; hole = {render(init) if init is not None else None}; module {mtxt}"
+        rep.ob("R7.6", f"{marker} import is `{marker}{{resource}}` of `[export]{{interface}}` with the WIT resource name",
+               ok, det, ge.loc())
 
 
 # ============================================================================ runtime (R7.5 + Option<T> rep)
@@ -1107,7 +1217,7 @@ def runtime_rules(rep, c, cfg):
         st = th.calls("Atomic::store")
         oc = th.calls(f"{ty}::opt_handle")
         stored = [th.origin(x.args[1]) for x in st if len(x.args) >= 2]
-        sv = [o.get("v") for o in stored if o.get("kind") == "const"]
+        sv = [o.get("v") if o.get("kind") == "const" else f"<{o.get('kind')}>" for o in stored]
         rep.ob("R7.5", f"{ty}::take_handle stores the value opt_handle maps to None {tag}",
                len(st) == 1 and sv == [sentinel] and sentinel is not None,
                f"stores {sv}, opt_handle treats {sentinel} as taken: Drop would release a handle that was given away "
